@@ -40,6 +40,27 @@ IS_META = z3.Function("is_blob_metadata", C, z3.BoolSort())
 PROTO = z3.Function("metadata_protocol", C, NAME.sort())  # json.loads(c).get("protocol")
 
 
+# codecs: a reference (a string) names a codec kind; the registry maps types to references on write
+PYTYPE = TUn("PyType")
+KIND = TUn("CodecKind")
+KIND_OF = z3.Function("codec_kind_of_ref", NAME.sort(), KIND.sort())  # which codec a reference denotes (aliases included)
+REGISTERED = z3.Function("dbfs_ref_is_registered", NAME.sort(), z3.BoolSort())
+IS_FILE_CODEC = z3.Function("ref_denotes_a_file_codec", NAME.sort(), z3.BoolSort())
+REF_FOR_TYPE = z3.Function("dbfs_ref_of_codec_for_type", PYTYPE.sort(), NAME.sort())
+TYPEOF = z3.Function("dbfs_type_of", ANY.sort(), PYTYPE.sort())
+ENCK = z3.Function("kind_encode", KIND.sort(), ANY.sort(), C)  # what a codec writes for a value
+DECK = z3.Function("kind_decode", KIND.sort(), C, ANY.sort())  # what it reads back
+META_OF = z3.Function("mk_blob_metadata", NAME.sort(), C)  # json.dumps({"protocol": ref, "timestamp_millis": ...})
+
+
+def codec_axioms():
+    kd, v, r = z3.Const("kd_", KIND.sort()), z3.Const("v_", ANY.sort()), z3.Const("r_", NAME.sort())
+    return [
+        z3.ForAll([kd, v], DECK(kd, ENCK(kd, v)) == v),  # A-LIB: every codec round-trips its own output
+        z3.ForAll([r], z3.And(IS_META(META_OF(r)), PROTO(META_OF(r)) == r)),  # json round trip of the metadata record
+    ]
+
+
 def idx(m):
     return list(CT).index(m)
 
@@ -112,6 +133,25 @@ class _Dbfs(FnSpec):
             "cp": Model(self.fs_cp, "dbutils.fs.cp"),
             "rm": Model(self.fs_rm, "dbutils.fs.rm"),
         }
+        g["STU"] = ObjVal("STU")
+        self.classes["STU"] = {"from_type": Model(lambda eng, a, k, n: a[1], "STU.from_type")}
+        g["type"] = Model(lambda eng, a, k, n: Sym(TYPEOF(ANY.lift(a[0]).term), PYTYPE), "type")
+        g["GenericLocation"] = Model(lambda eng, a, k, n: a[0], "GenericLocation")
+        g["ProtocolRef"] = Model(lambda eng, a, k, n: a[0], "ProtocolRef")
+        g["current_timestamp"] = Model(lambda eng, a, k, n: Opaque("timestamp"), "current_timestamp")
+        g["CodecProtocol"] = DS.CodecProtocol
+        g["FileCodecProtocol"] = DS.FileCodecProtocol
+        g["DDSException"] = DS.DDSException
+        g["tempfile"] = ObjVal("tempfile")
+        self.classes["tempfile"] = {"TemporaryDirectory": Model(lambda eng, a, k, n: ObjVal("TmpDir"), "tempfile.TemporaryDirectory")}
+        self.classes["TmpDir"] = {"__enter__": Model(lambda eng, a, k, n: ObjVal("LocalDir"), "__enter__"), "__exit__": Model(lambda eng, a, k, n: None, "__exit__")}
+        self.classes["LocalDir"] = {"joinpath": Model(lambda eng, a, k, n: ObjVal("LocalPath", content=None), "Path.joinpath")}
+        self.classes["CodecRegistry"] = {"get_codec": Model(self.m_get_codec, "contract:CodecRegistry.get_codec")}
+        self.classes["Codec"] = {
+            "ref": Model(lambda eng, a, k, n: a[0].fields["_ref"], "codec.ref"),
+            "serialize_into": Model(self.m_serialize, "codec.serialize_into"),
+            "deserialize_from": Model(self.m_deserialize, "codec.deserialize_from"),
+        }
         # the store's own helpers, by their contracts (each verified below against its body, or a layout definition)
         self.classes["DBFSStore"] = {
             "_head": Model(self.c_head, "contract:DBFSStore._head"),
@@ -131,10 +171,10 @@ class _Dbfs(FnSpec):
         return eng.st.globals["__dbfs__"]
 
     def self_obj(self, commit_type=None):
-        return ObjVal("DBFSStore", _dbutils=ObjVal("dbutils", fs=ObjVal("dbutils.fs")), _commit_type=commit_type if commit_type is not None else TCT.const("commit_type"), _internal_dir=Opaque("internal_dir"), _data_dir=Opaque("data_dir"))
+        return ObjVal("DBFSStore", _dbutils=ObjVal("dbutils", fs=ObjVal("dbutils.fs")), _commit_type=commit_type if commit_type is not None else TCT.const("commit_type"), _internal_dir=Opaque("internal_dir"), _data_dir=Opaque("data_dir"), _registry=ObjVal("CodecRegistry"))
 
     def common_requires(self, ctx):
-        return [("json_%d" % i, a) for i, a in enumerate(json_axioms())] + [("LAYOUT-INJ (hypothesis)", layout_inj())]
+        return [("json_%d" % i, a) for i, a in enumerate(json_axioms())] + [("codec_%d" % i, a) for i, a in enumerate(codec_axioms())] + [("LAYOUT-INJ (hypothesis)", layout_inj())]
 
     # ---- models of dbutils.fs (A-DBU) -----------------------------------------------------------------------------
     def fs_head(self, eng, args, kwargs, node):
@@ -162,6 +202,22 @@ class _Dbfs(FnSpec):
 
     def fs_cp(self, eng, args, kwargs, node):
         st = self.st(eng)
+        if isinstance(args[1], ObjVal) and args[1].cls == "LocalFileUri":
+            # upload of a local temporary file
+            c = args[1].fields["path"].fields["content"]
+            if c is None:
+                raise _Raise(any_exception())  # the local file was never written
+            dst = URI.lift(args[2]).term
+            st.exists = z3.Store(st.exists, dst, z3.BoolVal(True))
+            st.content = z3.Store(st.content, dst, c.term)
+            eng.event("dbfs:cp", src=None, dst=dst, st=st.snapshot())
+            return True
+        if isinstance(args[2], ObjVal) and args[2].cls == "LocalFileUri":
+            src = URI.lift(args[1]).term
+            if not eng.choose(st.exists[src]):
+                raise _Raise(any_exception())
+            args[2].fields["path"].fields["content"] = Sym(st.content[src], CONTENT)
+            return True
         src, dst = URI.lift(args[1]).term, URI.lift(args[2]).term
         if not eng.choose(st.exists[src]):
             raise _Raise(any_exception())
@@ -202,8 +258,61 @@ class _Dbfs(FnSpec):
         return None
 
     # ---- pathlib / json ----------------------------------------------------------------------------------------------
+    def m_get_codec(self, eng, args, kwargs, node):
+        """contract of CodecRegistry.get_codec (contracts/codecs.py): by reference if one is given, else by type; a coded
+        error when the reference is not registered"""
+        obj_type, ref = args[1], args[2]
+        if isinstance(ref, Sym) and ref.ty == NAME:
+            if not eng.choose(REGISTERED(ref.term)):
+                raise _Raise(ExcVal(DS.DDSException, code=DS.DDSErrorCode.PROTOCOL_NOT_FOUND))
+            rt = ref.term
+        elif ref is None and isinstance(obj_type, Sym):
+            rt = REF_FOR_TYPE(obj_type.term)
+            eng.assume(REGISTERED(rt))  # the registry always has the `object` (pickle) codec as fall-back
+        else:
+            raise OutOfSubset("get_codec(%r, %r)" % (obj_type, ref))
+        c = ObjVal("Codec", _ref=Sym(rt, NAME))
+        c.pyclass = DS.FileCodecProtocol if eng.choose(IS_FILE_CODEC(rt)) else DS.CodecProtocol
+        return c
+
+    def m_serialize(self, eng, args, kwargs, node):
+        c, blob, loc = args[0], args[1], args[2]
+        data = ENCK(KIND_OF(c.fields["_ref"].term), ANY.lift(blob).term)
+        if isinstance(loc, ObjVal) and loc.cls == "LocalPath":
+            loc.fields["content"] = Sym(data, CONTENT)
+            return None
+        st = self.st(eng)
+        u = URI.lift(loc).term
+        st.exists = z3.Store(st.exists, u, z3.BoolVal(True))
+        st.content = z3.Store(st.content, u, data)
+        eng.event("dbfs:codec_write", uri=u, st=st.snapshot())
+        return None
+
+    def m_deserialize(self, eng, args, kwargs, node):
+        c, loc = args[0], args[1]
+        kd = KIND_OF(c.fields["_ref"].term)
+        if isinstance(loc, ObjVal) and loc.cls == "LocalPath":
+            if loc.fields["content"] is None:
+                raise _Raise(any_exception())
+            return Sym(DECK(kd, loc.fields["content"].term), ANY)
+        st = self.st(eng)
+        u = URI.lift(loc).term
+        eng.oblige("blob_object_exists", st.exists[u], kind="safety:FileNotFoundError", node=node)
+        return Sym(DECK(kd, st.content[u]), ANY)
+
+    def eval_fstring(self, eng, e, env):
+        import ast
+
+        if len(e.values) == 2 and isinstance(e.values[0], ast.Constant) and e.values[0].value == "file://" and isinstance(e.values[1], ast.FormattedValue):
+            x = eng.eval(e.values[1].value, env)
+            if isinstance(x, ObjVal) and x.cls == "LocalPath":
+                return ObjVal("LocalFileUri", path=x)
+        return super().eval_fstring(eng, e, env)
+
     def m_path(self, eng, args, kwargs, node):
         x = args[0]
+        if isinstance(x, ObjVal) and x.cls == "LocalDir":
+            return x
         if x == "_dds_meta/":
             return ObjVal("RelPath", meta=True, p=None)
         if isinstance(x, ObjVal) and x.cls == "DotSlash":
@@ -231,6 +340,8 @@ class _Dbfs(FnSpec):
 
     def make_dict(self, eng, pairs, node):
         d = {k: v for k, v in pairs}
+        if set(d) == {"protocol", "timestamp_millis"}:
+            return ObjVal("MetaDict", protocol=d["protocol"])
         if set(d) == {"redirection_key"}:
             return ObjVal("RecDict", key=d["redirection_key"], full=None)
         if set(d) == {"redirection_key", "full_copy"}:
@@ -244,6 +355,8 @@ class _Dbfs(FnSpec):
             if d.fields["full"] is None:
                 return Sym(REC_OLD(k), CONTENT)
             return Sym(REC(k, TBool.lift(d.fields["full"]).term), CONTENT)
+        if isinstance(d, ObjVal) and d.cls == "MetaDict":
+            return Sym(META_OF(NAME.lift(d.fields["protocol"]).term), CONTENT)
         raise OutOfSubset("json.dumps(%r)" % (d,))
 
     def getitem(self, eng, o, k, node):
@@ -491,4 +604,99 @@ class dbfs_fetch_paths(_Dbfs):
         ]
 
 
-SPECS = [dbfs_head, dbfs_put, dbfs_fetch_meta, dbfs_has_blob, dbfs_sync_paths, dbfs_fetch_paths]
+class dbfs_store_blob(_Dbfs):
+    """store_blob(key, v, codec): the blob object holds what the selected codec writes for v, the metadata object names
+    that codec's reference (written last); nothing else changes; the only error is PROTOCOL_NOT_FOUND for an unregistered
+    reference, before anything is written"""
+
+    qualname = "DBFSStore.store_blob"
+
+    def make_args(self, eng):
+        return {"self": self.self_obj(), "key": KEY.const("key"), "blob": ANY.const("blob"), "codec": self.codec_arg()}
+
+    def codec_arg(self):
+        return None
+
+    def requires(self, ctx):
+        return self.common_requires(ctx)
+
+    def chosen(self, ctx):
+        c = ctx.args["codec"]
+        return c.term if isinstance(c, Sym) else REF_FOR_TYPE(TYPEOF(ctx.args["blob"].term))
+
+    def ensures(self, ctx):
+        st0, st1 = ctx.old_globals["__dbfs__"], ctx.globals["__dbfs__"]
+        k, v = ctx.args["key"].term, ctx.args["blob"].term
+        r = self.chosen(ctx)
+        u = z3.Const(sv.fresh_name("u"), U)
+        meta = st1.content[BLOBMETA(k)]
+        return [
+            ("blob_object_is_the_codec_encoding", z3.And(st1.exists[BLOB(k)], st1.content[BLOB(k)] == ENCK(KIND_OF(r), v))),
+            ("metadata_names_the_codec_that_wrote", z3.And(st1.exists[BLOBMETA(k)], IS_META(meta), PROTO(meta) == r)),
+            ("a_later_fetch_decodes_the_stored_value", DECK(KIND_OF(PROTO(meta)), st1.content[BLOB(k)]) == v),
+            ("nothing_else_written", z3.ForAll([u], z3.Implies(z3.And(u != BLOB(k), u != BLOBMETA(k)), st1.same_at(st0, u)))),
+            ("metadata_is_written_after_the_blob", self.meta_last(ctx)),
+        ]
+
+    def meta_last(self, ctx):
+        evs = [e for e in ctx.events if e.kind in ("dbfs:put", "dbfs:cp", "dbfs:codec_write")]
+        return len(evs) == 2 and evs[-1].kind == "dbfs:put"
+
+    def signals(self, ctx):
+        st0, st1 = ctx.old_globals["__dbfs__"], ctx.globals["__dbfs__"]
+        c = ctx.args["codec"]
+        e = ctx.exc
+        return [
+            ("only_for_an_unregistered_reference", isinstance(c, Sym) and e.cls is DS.DDSException and z3.Not(REGISTERED(c.term))),
+            ("nothing_written", z3.And(st1.exists == st0.exists, st1.content == st0.content)),
+        ]
+
+
+class dbfs_store_blob_with_ref(dbfs_store_blob):
+    variant = "codec reference given"
+
+    def codec_arg(self):
+        return NAME.const("codec")
+
+
+class dbfs_fetch_blob(_Dbfs):
+    """fetch_blob(key): None when the key has no metadata; otherwise the blob object decoded by the codec that the
+    metadata's reference denotes (legacy references included: KIND_OF); no effect"""
+
+    qualname = "DBFSStore.fetch_blob"
+
+    def make_args(self, eng):
+        return {"self": self.self_obj(), "key": KEY.const("key")}
+
+    def requires(self, ctx):
+        st = ctx.globals["__dbfs__"]
+        k = ctx.args["key"].term
+        return self.common_requires(ctx) + [
+            # REP-BLOB: metadata is written after its blob, and is a metadata record
+            ("metadata_implies_blob", z3.Implies(st.exists[BLOBMETA(k)], z3.And(st.exists[BLOB(k)], IS_META(st.content[BLOBMETA(k)])))),
+        ]
+
+    def ensures(self, ctx):
+        st0, st1 = ctx.old_globals["__dbfs__"], ctx.globals["__dbfs__"]
+        k = ctx.args["key"].term
+        r = ctx.result
+        meta = st0.content[BLOBMETA(k)]
+        if r is None:
+            val = z3.Not(st0.exists[BLOBMETA(k)])
+        elif isinstance(r, Sym) and r.ty == ANY:
+            val = z3.And(st0.exists[BLOBMETA(k)], r.term == DECK(KIND_OF(PROTO(meta)), st0.content[BLOB(k)]))
+        else:
+            val = False
+        return [("decoded_by_the_codec_the_metadata_names", val), ("no_effect", z3.And(st1.exists == st0.exists, st1.content == st0.content))]
+
+    def signals(self, ctx):
+        st0, st1 = ctx.old_globals["__dbfs__"], ctx.globals["__dbfs__"]
+        k = ctx.args["key"].term
+        e = ctx.exc
+        return [
+            ("only_for_an_unregistered_reference", e.cls is DS.DDSException and z3.And(st0.exists[BLOBMETA(k)], z3.Not(REGISTERED(PROTO(st0.content[BLOBMETA(k)]))))),
+            ("no_effect", z3.And(st1.exists == st0.exists, st1.content == st0.content)),
+        ]
+
+
+SPECS = [dbfs_store_blob, dbfs_store_blob_with_ref, dbfs_fetch_blob, dbfs_head, dbfs_put, dbfs_fetch_meta, dbfs_has_blob, dbfs_sync_paths, dbfs_fetch_paths]
